@@ -8,7 +8,7 @@ import glob, hashlib, json, os, shutil, subprocess, sys, tempfile
 def main():
     for d in sys.argv[1:]:
         group = os.path.basename(d.rstrip("/")).replace("rfo_", "")
-        for pd in sorted(glob.glob(os.path.join(d, "r*", "patch.diff"))):
+        for pd in sorted(glob.glob(os.path.join(d, "[re]*", "patch.diff"))):
             k = os.path.basename(os.path.dirname(pd))
             name = f"{group}-{k}"
             out = os.path.join("/verif/refactors", name)
